@@ -181,7 +181,9 @@ func ElideError(err error) string {
 	case *net.UnknownNetworkError:
 		return "unknown network " + elidedAddr
 	case *net.OpError:
-		return t.Op + ": " + t.Err.Error()
+		// The wrapped error can be another net.Error that includes address
+		// information (eg: a DNSError or AddrError), so sanitize it as well.
+		return t.Op + ": " + ElideError(t.Err)
 	default:
 		// For unknown error types, do the conservative thing and only log the
 		// type of the error instead of assuming that the string representation
